@@ -18,13 +18,16 @@ def tup(*a): return {"c": "tuple", "n": "", "a": list(a)}
 def arr(a, n): return {"c": "array", "n": n, "a": [a]}
 def ref(a): return {"c": "ref", "n": "a", "a": [a]}
 
+ENCODED_AS = '<u32 as scale::HasCompact>::Type'
+
 def doc(line):
     n = len(line) - len(line.lstrip(" "))
     return {"sp": n, "text": line.lstrip(" ")}
 
-def field(name, ty, skip=False, compact=False, rename=None, docs=(), encoded_as=False):
+def field(name, ty, skip=False, compact=False, rename=None, docs=(), encoded_as=None):
+    """encoded_as: None or the Rust text of the type the member is encoded as"""
     return {"name": [name] if name else [], "ty": ty, "skip": skip, "compact": compact, "rename": [rename] if rename else [],
-            "docs": [doc(x) for x in docs], "encoded_as": encoded_as}
+            "docs": [doc(x) for x in docs], "encoded_as": [encoded_as] if encoded_as else []}
 
 def variant(name, shape="unit", fields=(), cindex=None, discr=None, skip=False, docs=()):
     return {"name": name, "shape": shape, "fields": list(fields), "cindex": [cindex] if cindex is not None else [],
@@ -38,7 +41,7 @@ def decl(kind, name, shape="named", fields=(), variants=(), tparams=(), lifetime
 # ------------------------------------------------------------------------------------------------
 # concretisation of a TLC feature plan: [shape, features]
 
-def from_plan(shape, feats, i):
+def from_plan(shape, feats, i, for_codec=True):
     """shape in struct_named/struct_unnamed/struct_unit/enum; feats: set of feature names (specs/MC_Derive.tla)"""
     F = set(feats)
     named = shape != "struct_unnamed"
@@ -57,7 +60,10 @@ def from_plan(shape, feats, i):
     if "lifetime" in F: fs.append(field(nm("r"), ref(vec(P("T")) if "generic" in F else U32)))
     if "selfref" in F: fs.append(field(nm("k"), vec(SELF))); fs.append(field(nm("o"), opt(box(SELF))))
     if "nested" in F: fs.append(field(nm("n"), T2("btreemap", U8, T2("result", tup(), vec(tup(U8, BOOL))))))
-    if "encoded_as" in F: fs.append(field(nm("e"), U32, encoded_as=True))
+    if "encoded_as" in F:
+        fs.append(field(nm("e"), U32, encoded_as=ENCODED_AS))
+        if not for_codec:        # TypeInfo alone does not need the codec impls: any declared type, any described type
+            fs.append(field(nm("e2"), ref(vec(U8)) if "lifetime" in F else vec(P("T")) if "generic" in F else tup(U8, BOOL), encoded_as="u64"))
     if "raw_ident" in F and named: fs.append(field("r#type", U8))
     docs = [" Type doc", "  second line", "third"] if "docs" in F else []
     capture, ctext = "absent", None
@@ -79,7 +85,10 @@ def from_plan(shape, feats, i):
           variant("C", "named", fs)]
     if "skip_variant" in F: vs.insert(1, variant("S", "unit", skip=True)); vs.insert(0, variant("S0", "unnamed", [field(None, U8)], skip=True))
     if "codec_index" in F: vs[-1]["cindex"] = [200]; vs.append(variant("D", "unit", cindex=7))
-    if "discriminant" in F: vs.append(variant("X", "unit", discr=42)); vs.append(variant("Y", "unit"))
+    if "discriminant" in F:
+        # explicit discriminants on a unit variant AND on a data variant (allowed with a primitive repr)
+        vs.append(variant("X", "unit", discr=42)); vs.append(variant("Y", "unit"))
+        next(v for v in vs if v["name"] == "B")["discr"] = [33]
     if "codec_index" in F and "discriminant" in F: vs.append(variant("Z", "unit", cindex=9, discr=77))
     return decl("enum", name, "named", (), vs, tparams, lifetimes, capture, replace, docs, mods, inst, ctext)
 
@@ -102,7 +111,7 @@ def rand_ty(r, depth, params, allow_self, top=True):
     if k == 8 and allow_self: return r.choice([vec(SELF), opt(box(SELF))])
     return r.choice(leaves)
 
-def rand_fields(r, named, params, skipped, allow_self, lifetimes):
+def rand_fields(r, named, params, skipped, allow_self, lifetimes, for_codec=True):
     fs = []
     for j in range(r.randrange(0, 5)):
         ty = rand_ty(r, 2, params, allow_self)
@@ -113,12 +122,14 @@ def rand_fields(r, named, params, skipped, allow_self, lifetimes):
         f = field(("f%d" % j) if named else None, ty, skip=skip, compact=compact,
                   rename=("ren%d" % j if named and r.random() < 0.15 else None),
                   docs=([" fdoc %d" % j] if r.random() < 0.3 else ()))
+        if not for_codec and not skip and not compact and not is_phantom(ty) and r.random() < 0.1:
+            f["encoded_as"] = [r.choice(["u64", "scale::Compact<u32>", "Vec<bool>"])]
         fs.append(f)
     for s in skipped:
         fs.append(field(("ph_%s" % s) if named else None, ph(P(s))))
     return fs
 
-def rand_decl(r, i):
+def rand_decl(r, i, for_codec=True):
     params = [p for p in ["T", "V"] if r.random() < 0.35]
     skipped = ["U"] if r.random() < 0.25 else []
     lifetimes = ["a"] if r.random() < 0.2 else []
@@ -135,7 +146,7 @@ def rand_decl(r, i):
         shape = r.choice(["named", "named", "unnamed", "unit"])
         if shape == "unit":
             return decl("struct", name, "unit", (), (), [], [], cap, replace, docs, mods, [])
-        fs = rand_fields(r, shape == "named", params, skipped, True, lifetimes)
+        fs = rand_fields(r, shape == "named", params, skipped, True, lifetimes, for_codec)
         if lifetimes and not any(has_ref(f["ty"]) for f in fs): fs.append(field("lt" if shape == "named" else None, ref(U8)))
         for p in params:
             if not any(uses_param(f["ty"], p) for f in fs): fs.append(field(("use_%s" % p) if shape == "named" else None, P(p)))
@@ -144,14 +155,14 @@ def rand_decl(r, i):
     nv = r.randrange(0, 6)
     for j in range(nv):
         shape = r.choice(["unit", "unit", "named", "unnamed"])
-        fs = rand_fields(r, shape == "named", params, [], True, lifetimes) if shape != "unit" else []
+        fs = rand_fields(r, shape == "named", params, [], True, lifetimes, for_codec) if shape != "unit" else []
         v = variant("V%d" % j, shape, fs, skip=r.random() < 0.15, docs=([" vdoc"] if r.random() < 0.3 else ()))
         vs.append(v)
     # indices: keep them unique the way codec requires (explicit values far from the positional ones)
     for j, v in enumerate(vs):
         x = r.random()
         if x < 0.2: v["cindex"] = [100 + j]
-        elif x < 0.35 and all(w["shape"] == "unit" for w in vs): v["discr"] = [50 + 2 * j]
+        elif x < 0.35: v["discr"] = [50 + 2 * j]          # also on data variants (#[repr(u8)] is emitted)
     if skipped or params or lifetimes:
         fs = [field(None, ph(P(p))) for p in params + skipped] + ([field(None, ref(U8))] if lifetimes else [])
         vs.append(variant("Carrier", "unnamed", fs))
@@ -193,13 +204,12 @@ def src(t, d, subst=None, static=False, selfpath=None):
 def docs_src(ds, ind):
     return "".join("%s///%s%s\n" % (ind, " " * x["sp"], x["text"]) for x in ds)
 
-ENCODED_AS = '<u32 as scale::HasCompact>::Type'
 
 def field_src(f, d, ind, pub, with_codec):
     s = docs_src(f["docs"], ind)
     if f["skip"]: s += ind + "#[codec(skip)]\n"
     if f["compact"]: s += ind + "#[codec(compact)]\n"
-    if f.get("encoded_as"): s += ind + '#[codec(encoded_as = "%s")]\n' % ENCODED_AS
+    if f.get("encoded_as"): s += ind + '#[codec(encoded_as = "%s")]\n' % f["encoded_as"][0]
     if f["rename"]: s += ind + '#[scale_info(rename = "%s")]\n' % f["rename"][0]
     s += ind + ("pub " if pub else "") + (f["name"][0] + ": " if f["name"] else "") + src(f["ty"], d) + ",\n"
     return s
@@ -328,7 +338,7 @@ def program(decls, seed, with_values, nvals):
             if f["skip"]: return "String::new()"
             t = src(f["ty"], d, subst, True, selfpath=full).replace("PhantomData", "core::marker::PhantomData").replace("BTreeMap", "std::collections::BTreeMap")
             if f["compact"]: t = "scale::Compact<%s>" % t
-            if f.get("encoded_as"): t = ENCODED_AS
+            if f.get("encoded_as"): t = f["encoded_as"][0]
             return "dv::t::<%s>()" % t
         groups = [d["fields"]] if d["kind"] == "struct" else [v["fields"] for v in d["variants"]]
         ft = "vec![" + ", ".join("vec![" + ", ".join(exp(f) for f in g) + "] as Vec<String>" for g in groups) + "]"
